@@ -8,10 +8,12 @@
 
   Source map (rpc/registry.go, LinkStream):
     decRead      `decode(&msg)` returns: the next element of `inp`
-                   some env : msg decoded; the decoder goes on to hand msg.Request, then msg.Response
+                   some env : the call wrote `env`; the decoder goes on to hand msg.Request, then
+                              msg.Response, of `msg = decoded sk carry env` (see below)
                    none     : decode error; first of the two effects `decodeErr = err`, `close(decodeDone)`
                               (their order is `sk.stDecodeErrBeforeClose`)
-    decFinish    the second of the two effects; then `break` (if `sk.stDecoderExitsOnErr`) or loop on
+    decFinish    the second of the two effects; then `break` (if `sk.stDecoderExitsOnErr`: the goroutine
+                 leaves, `leave`) or loop on
     handReq      rendezvous `requests <- *msg.Request`  ×  `case request := <-requests` (request loop)
     handRes      rendezvous `responses <- *msg.Response` × `case response := <-responses` (response loop)
     decAbort c   (only if `sk.stHandoffGuarded` and `c = sk.stAbortClosesDone`) the hand-off send
@@ -29,6 +31,22 @@
   error.  If `inp` is exhausted the decoder blocks in `decode` (no step).  Ghost fields:
   `consumed`, `gotReq`, `gotRes`, `reqEnd`, `resEnd`, `lostReq`, `lostRes`.
   A decode error is identified by the number of the `decode` call that returned it.
+
+  The envelope variable (`stMsgFreshPerIteration`).  An element `some env` of `inp` is what ONE
+  `decode(&msg)` call WROTE: a member `none` means "this frame did not mention the member" (JSON
+  decoding leaves absent fields of the target untouched).  What the decoder then finds in `msg`
+  depends on where `msg` is declared: inside the `for` loop (`stMsgFreshPerIteration = true`) the
+  call wrote into a zero envelope and `msg = env`; hoisted out of the loop (`= false`) the call wrote
+  over what the previous iteration left, `msg = env` laid over `carry` member by member (`decoded`),
+  and a member the frame omits is the previous frame's — handed over again.  `carry` is the
+  variable as the previous iteration left it (only maintained when it survives, i.e. when not
+  fresh).  `consumed` records what the peer SENT (`env`), not what the decoder made of it.
+
+  Leaving the goroutine (`stDoneClosedOncePerExit`).  `decodeDone` is closed once in front of each
+  exit (the regular effects of `decFinish` / `decAbort true`).  If the fact is false — the reading
+  modelled: a `defer close(decodeDone)` was added while an explicit close remained — leaving the
+  goroutine closes once more (`leave`): on an exit that had closed already this is
+  `panic: close of closed channel` in a goroutine without recover (`closeDone` sets `crashed`).
 
   Guard of `decAbort`: `stAbortClosesDone : Bool` says whether, in the `case <-ctx.Done():` arm of
   each hand-off select, `decodeErr` is assigned and `decodeDone` closed before the return.
@@ -85,12 +103,14 @@ structure State where
   resEnd      : Option (Option StErr)
   lostReq     : List Payload               -- ghost: decoded members the decoder dropped when it aborted
   lostRes     : List Payload
+  carry       : Envelope                   -- the decoder's `msg` as the previous iteration left it (used only if it is not fresh per iteration)
   deriving DecidableEq, Repr, Inhabited
 
 def init (inp : List (Option Envelope)) : State :=
   { inp := inp, consumed := [], dec := .reading, decodeErr := none, decodeDone := false,
     reqRd := .waiting, resRd := .waiting, linkCtxDone := false, crashed := false,
-    gotReq := [], gotRes := [], reqEnd := none, resEnd := none, lostReq := [], lostRes := [] }
+    gotReq := [], gotRes := [], reqEnd := none, resEnd := none, lostReq := [], lostRes := [],
+    carry := { req := none, res := none } }
 
 inductive Act where
   | decRead
@@ -113,9 +133,24 @@ def afterDecode (sk : Skeleton) (env : Envelope) : Dec :=
   | none, some q => .handRes q
   | none, none => .reading
 
+/-- `decode(&msg)` wrote `env` over a variable holding `old`: members the frame does not mention
+    keep their old value -/
+def Envelope.over (env old : Envelope) : Envelope :=
+  { req := env.req <|> old.req, res := env.res <|> old.res }
+
+/-- what the decoder finds in `msg` after a `decode` call that wrote `env`: `env` itself if `msg`
+    is declared inside the loop, `env` over the previous iteration's `msg` if it is hoisted out -/
+def decoded (sk : Skeleton) (carry env : Envelope) : Envelope :=
+  if sk.stMsgFreshPerIteration = true then env else env.over carry
+
 /-- `close(decodeDone)` -/
 def closeDone (s : State) : State :=
   if s.decodeDone = true then { s with crashed := true } else { s with decodeDone := true }
+
+/-- the decoder goroutine returns: nothing more if `decodeDone` is closed exactly once per exit
+    (the regular effects); otherwise the surplus close -/
+def leave (sk : Skeleton) (s : State) : State :=
+  if sk.stDoneClosedOncePerExit = true then s else closeDone s
 
 /-- `decodeErr = ctx.Err(); close(decodeDone)` if the aborting decoder signals the readers -/
 def abortWith (signal : Bool) (s : State) : State :=
@@ -127,7 +162,9 @@ def step (sk : Skeleton) (s : State) : Act → Option State
       match s.inp with
       | [] => none
       | some env :: rest =>
-        some { s with inp := rest, consumed := s.consumed ++ [some env], dec := afterDecode sk env }
+        let msg := decoded sk s.carry env
+        some { s with inp := rest, consumed := s.consumed ++ [some env], dec := afterDecode sk msg,
+                      carry := if sk.stMsgFreshPerIteration = true then s.carry else msg }
       | none :: rest =>
         let k := s.consumed.length
         let s1 := { s with inp := rest, consumed := s.consumed ++ [none], dec := .failing k }
@@ -139,8 +176,9 @@ def step (sk : Skeleton) (s : State) : Act → Option State
       match s.dec with
       | .failing k =>
         let s1 := { s with dec := if sk.stDecoderExitsOnErr = true then .done else .reading }
-        if sk.stDecodeErrBeforeClose = true then some (closeDone s1)
-        else some { s1 with decodeErr := some (.decode k) }
+        let s2 := if sk.stDecodeErrBeforeClose = true then closeDone s1
+                  else { s1 with decodeErr := some (.decode k) }
+        some (if sk.stDecoderExitsOnErr = true then leave sk s2 else s2)
       | _ => none
     else none
   | .handReq =>
@@ -161,8 +199,9 @@ def step (sk : Skeleton) (s : State) : Act → Option State
     if s.crashed = false ∧ sk.stHandoffGuarded = true ∧ s.linkCtxDone = true ∧
         signal = sk.stAbortClosesDone then
       match s.dec with
-      | .handReq p next => some (abortWith signal { s with dec := .done, lostReq := [p], lostRes := next.toList })
-      | .handRes q => some (abortWith signal { s with dec := .done, lostRes := [q] })
+      | .handReq p next =>
+        some (leave sk (abortWith signal { s with dec := .done, lostReq := [p], lostRes := next.toList }))
+      | .handRes q => some (leave sk (abortWith signal { s with dec := .done, lostRes := [q] }))
       | _ => none
     else none
   | .readDoneReq =>
